@@ -75,6 +75,15 @@ def handle (toks : List String) : String :=
                          V.ofByteNats (wire close r)]
           | .error e => ok [.atom "err", encErr e]
         | _, _, _, _, _, _ => err "bad-arg"
+      | "respondj", [m, tver, st, hs, pieces, close] =>
+        -- as "respond", but the model joins the pieces appended to `response` (write() calls, then chunks) itself
+        match m.cps?, tver.cps?, st.cps?, decPairs hs, pieces.list? >>= (·.mapM V.byteNats?), close.bool? with
+        | some m, some tver, some st, some hs, some ps, some close =>
+          match respond m tver { status := st, headers := hs, body := joinResponse ps } with
+          | .ok r => ok [.atom "ok", .int r.code, V.ofCps r.reason, encPairs r.headers, V.ofByteNats r.body,
+                         V.ofByteNats (wire close r)]
+          | .error e => ok [.atom "err", encErr e]
+        | _, _, _, _, _, _ => err "bad-arg"
       | "faithful", [m, st, hs, b, code, reason, whs, wb] =>
         match m.cps?, st.cps?, decPairs hs, b.byteNats?, code.nat?, reason.cps?, decPairs whs, wb.byteNats? with
         | some m, some st, some hs, some b, some code, some reason, some whs, some wb =>
